@@ -258,6 +258,8 @@ def make_requester(world, ctx):
     from urllib.parse import urlsplit
     from async_upnp_client.client import UpnpRequester
 
+    order = {}
+
     class Requester(UpnpRequester):
         async def async_http_request(self, method, url, headers=None, body=None):
             u = urlsplit(url)
@@ -265,6 +267,12 @@ def make_requester(world, ctx):
             if method == "POST":
                 ctx.posts += 1
             st, hd, text = await world.serve(method, path, dict(headers or {}), (body or "").encode("utf-8"))
+            if method == "GET":
+                # documents come back after a few loop turns, later ones sooner than earlier ones: which SCPD a service
+                # is built from must not depend on the order in which the answers arrive
+                order.setdefault(url, len(order))
+                for _ in range(max(0, 6 - 2 * order[url])):
+                    await asyncio.sleep(0)
             if method == "POST":
                 world.last = response_sig(st, text, ctx.escaped)
             return st, hd, text
